@@ -441,6 +441,11 @@ impl CallStack {
         Ok(())
     }
 
+    #[cfg(feature = "verif")]
+    pub(crate) fn verif_thread_depths(&self) -> Vec<usize> {
+        self.threads.iter().map(|t| t.callstack.len()).collect()
+    }
+
     pub fn get_callstack_trace(&self) -> String {
         let mut sb = String::new();
 
